@@ -132,4 +132,57 @@ theorem malformed_skipped :
 /-- a well-formed line `*<hex>;\n` yields the bytes of its hex text -/
 theorem wellformed_parsed : parseLine [42, 56, 100, 52, 48, 59, NL] = some [0x8d, 0x40] := by decide
 
+/-! ## radar: `--limit-parsing`, `--retry-tcp` -/
+
+/-- **`--limit-parsing` only filters**: a line is handed on with the option exactly when it is handed on without it and is a DF17
+frame; in particular whether a line is processed never depends on the lines before it -/
+theorem limit_parsing_only_filters (line : List UInt8) :
+    radarProcess true line = (radarProcess false line).filter (fun bytes => (bytes.headD 0).toNat / 8 == 17) := by
+  unfold radarProcess
+  cases h : parseLine line with
+  | none => rfl
+  | some bytes =>
+    simp only [Bool.true_and, Bool.false_and, Bool.false_eq_true, if_false, Option.filter]
+    by_cases hd : (bytes.headD 0).toNat / 8 = 17 <;> simp [hd]
+
+/-- over a whole connection: the frames radar decodes are the complete lines of the stream, parsed and filtered, once and in order -/
+theorem radar_stream (limit : Bool) (evs : List Ev) (h : live evs) :
+    (clientRun (radarProcess limit) evs).outs = (splitLines (streamOf evs)).1.map (radarProcess limit) :=
+  (lines_once_in_order (radarProcess limit) evs h).1
+
+theorem sessions_step {Out : Type} (process : List UInt8 → Out) (evs : List Ev) (h : live evs) (s : CS Out) (hs : s.input = []) :
+    (clientStep process (evs.foldl (clientStep process) { s with ended := false }) .eof).outs
+      = s.outs ++ (splitLines (streamOf evs)).1.map process ∧
+    (clientStep process (evs.foldl (clientStep process) { s with ended := false }) .eof).input = [] := by
+  obtain ⟨inp, outs, ended⟩ := s
+  simp only at hs
+  subst hs
+  have := lines_once_in_order_from process evs h { input := [], outs := outs, ended := false } (by simp [splitLines])
+  simp only [List.nil_append] at this
+  exact ⟨by rw [(eof_discards_partial process _).1, this.1], (eof_discards_partial process _).2⟩
+
+theorem sessions_from {Out : Type} (process : List UInt8 → Out) (sessions : List (List Ev)) (h : ∀ evs ∈ sessions, live evs) :
+    ∀ (s : CS Out), s.input = [] →
+      (sessions.foldl (fun s evs => clientStep process (evs.foldl (clientStep process) { s with ended := false }) .eof) s).outs
+        = s.outs ++ (sessions.map (fun evs => (splitLines (streamOf evs)).1.map process)).flatten := by
+  induction sessions with
+  | nil => intro s _; simp
+  | cons evs rest ih =>
+    intro s hs
+    have hst := sessions_step process evs (h evs List.mem_cons_self) s hs
+    simp only [List.foldl_cons, List.map_cons, List.flatten_cons]
+    rw [ih (fun e he => h e (List.mem_cons_of_mem _ he)) _ hst.2, hst.1, List.append_assoc]
+
+/-- **reconnecting keeps everything and loses nothing but the fragment of the dropped connection**: with `--retry-tcp` the outputs after
+any number of connections are the complete lines of the first connection's stream, then those of the second, … — each exactly once, in
+order; the unterminated fragment at the end of a dropped connection is never joined with the next connection's first line -/
+theorem retry_processes_every_connection {Out : Type} (process : List UInt8 → Out) (sessions : List (List Ev))
+    (h : ∀ evs ∈ sessions, live evs) :
+    (sessionsRun process sessions).outs = (sessions.map (fun evs => (splitLines (streamOf evs)).1.map process)).flatten := by
+  have := sessions_from process sessions h {} rfl
+  simpa [sessionsRun] using this
+
+/-- the scenario of seed C16_b as an instance: a fragment, a drop, then a complete line — the line is processed, alone -/
+example : (sessionsRun (fun l => l) [[.chunk [42, 56]], [.chunk [42, 57, 59, NL]]]).outs = [[42, 57, 59, NL]] := by decide
+
 end Adsb.C16
